@@ -68,7 +68,7 @@ PROPS = {
         "assumptions": ["as C01"],
     },
     "C15": {
-        "engines": ["seq", "seq0", "conc", "seqx"],
+        "engines": ["seq", "seq0", "conc", "seqx", "concx"],
         "footprint": {"state": ["stats"]},
         "nontrivial": r"^match txs=\[[^\]]+\]",
         "rule": "E-seq/E-seq0 histories; the four counters compared after every op and judged by C15.ok against the events the harness "
@@ -118,7 +118,7 @@ PROPS = {
         "assumptions": ["as C01"],
     },
     "C03": {
-        "engines": ["conc"],
+        "engines": ["conc", "concx"],
         "search_engines": ["concx"],
         "footprint": {"conc.run": ["trace", "rets", "done"], "state": ["vis", "hid", "cnt", "list"]},
         "nontrivial": r"^conc\.run .*trace=[^ ]*t0:[^ ]*t1:[^ ]*t0:",
@@ -126,7 +126,7 @@ PROPS = {
         "assumptions": ["sequentially consistent memory; DashMap and SegQueue operations atomic (linearizable); weak-memory reorderings and library internals are not exhibited"],
     },
     "C08": {
-        "engines": ["conc"],
+        "engines": ["conc", "concx"],
         "search_engines": ["concx"],
         "footprint": {"conc.run": ["trace", "done"], "match": "*", "state": ["vis", "hid", "cnt", "list"]},
         "nontrivial": r"^conc\.run .*trace=[^ ]*t0:[^ ]*t1:[^ ]*t0:",
@@ -134,7 +134,7 @@ PROPS = {
         "assumptions": ["as C03"],
     },
     "C12": {
-        "engines": ["conc"],
+        "engines": ["conc", "concx"],
         "search_engines": ["concx"],
         "footprint": {"conc.run": ["obs", "trace"]},
         "nontrivial": r"^conc\.run .*trace=[^ ]*t0:[^ ]*t1:[^ ]*t0:",
@@ -142,7 +142,7 @@ PROPS = {
         "assumptions": ["as C03"],
     },
     "C13": {
-        "engines": ["conc"],
+        "engines": ["conc", "concx"],
         "search_engines": ["concx"],
         "footprint": {"conc.run": ["trace", "rets"]},
         "nontrivial": r"^conc\.run .*(cancel|map\.get)",
